@@ -3342,6 +3342,25 @@ type c06Multi struct {
 	txs    []*c06Case
 	dirs   *c06Dirs // the `<x>_action` directives written into every check's configuration block (nil: none, the defaults apply)
 	sl     []int    // round 10: the checks that are REAL stateless checks (op token sl=)
+	// round 11: the members of the named top-level block `checks verif_c06_grp { … }` (op token g=);
+	// every scope whose check list begins with exactly these checks writes that beginning as
+	// `check &verif_c06_grp` (the rest in `check { }` directives of its own, as before)
+	grp []int
+}
+
+const c06GrpName = "verif_c06_grp"
+
+// c06GrpUsed: does the scope write its leading checks as a reference to the named group?
+func c06GrpUsed(grp, ids []int, flaky bool) bool {
+	if len(grp) == 0 || len(ids) < len(grp) || flaky {
+		return false
+	}
+	for i, g := range grp {
+		if ids[i] != g {
+			return false
+		}
+	}
+	return true
 }
 
 func c06SrcDomain(m *c06Multi, k int) (dom, idn string) {
@@ -3378,6 +3397,9 @@ func (m *c06Multi) op() string {
 		sc.WriteByte(byte('0' + i))
 	}
 	f := []string{"C06", "multi", m.dmarc, c06Ids(m.global), strings.Join(m.tgts, ","), strings.Join(ss, "_"), sc.String()}
+	if len(m.grp) > 0 {
+		f = append(f, "g="+c06Ids(m.grp))
+	}
 	if len(m.sl) > 0 {
 		f = append(f, "sl="+c06Ids(m.sl))
 	}
@@ -3403,7 +3425,19 @@ func c06ParseMulti(op string) (m *c06Multi, err error) {
 	}()
 	t := strings.Fields(op)
 	var dirs *c06Dirs
-	var sl []int
+	var sl, grp []int
+	if len(t) > 8 && strings.HasPrefix(t[7], "g=") {
+		grp = c06ParseIds(t[7][2:])
+		if len(grp) == 0 {
+			return nil, errors.New("empty g= token")
+		}
+		for i, k := range grp {
+			if k < 0 || c06Has(grp[:i], k) {
+				return nil, errors.New("bad g= token")
+			}
+		}
+		t = append(append([]string(nil), t[:7]...), t[8:]...)
+	}
 	if len(t) > 8 && strings.HasPrefix(t[7], "sl=") {
 		sl = c06ParseIds(t[7][3:])
 		if len(sl) == 0 {
@@ -3425,7 +3459,7 @@ func c06ParseMulti(op string) (m *c06Multi, err error) {
 	if len(t) < 13 || t[0] != "C06" || t[1] != "multi" || (len(t)-7)%6 != 0 {
 		return nil, errors.New("not a C06 multi op")
 	}
-	m = &c06Multi{dmarc: t[2], global: c06ParseIds(t[3]), tgts: strings.Split(t[4], ","), dirs: dirs, sl: sl}
+	m = &c06Multi{dmarc: t[2], global: c06ParseIds(t[3]), tgts: strings.Split(t[4], ","), dirs: dirs, sl: sl, grp: grp}
 	for _, k := range m.tgts {
 		if k != "an" && k != "ar" && k != "pn" && k != "pr" {
 			return nil, errors.New("multi: target kind " + k)
@@ -3482,6 +3516,11 @@ func c06ParseMulti(op string) (m *c06Multi, err error) {
 	for _, k := range m.sl {
 		if k >= len(m.txs[0].scripts) {
 			return nil, errors.New("sl= names a check that does not exist")
+		}
+	}
+	for _, k := range m.grp {
+		if k >= len(m.txs[0].scripts) {
+			return nil, errors.New("g= names a check that does not exist")
 		}
 	}
 	m.fill()
@@ -3541,7 +3580,30 @@ func c06ConfigText(m *c06Multi) string {
 		}
 		return strings.Join(p, " ")
 	}
+	one := func(ind string, id int) {
+		if m.dirs == nil {
+			fmt.Fprintf(&b, "%sverif_c06 %d\n", ind, id)
+			return
+		}
+		fmt.Fprintf(&b, "%sverif_c06 %d {\n", ind, id)
+		for k, w := range c06Words {
+			fmt.Fprintf(&b, "%s    %s_action %s\n", ind, w, quote(m.dirs[k]))
+		}
+		fmt.Fprintf(&b, "%s}\n", ind)
+	}
+	if len(m.grp) > 0 {
+		// the named group: a top-level configuration block, its list built by CheckGroup.Init
+		fmt.Fprintf(&b, "checks %s {\n", c06GrpName)
+		for _, id := range m.grp {
+			one("    ", id)
+		}
+		b.WriteString("}\n")
+	}
 	checks := func(ind string, ids []int, flakyAt ...int) {
+		if c06GrpUsed(m.grp, ids, len(flakyAt) == 1) {
+			fmt.Fprintf(&b, "%scheck &%s\n", ind, c06GrpName)
+			ids = ids[len(m.grp):]
+		}
 		for pos, id := range append(append([]int(nil), ids...), -1) {
 			if len(flakyAt) == 1 && flakyAt[0] == pos {
 				fmt.Fprintf(&b, "%scheck {\n%s    verif_c06_flaky\n%s}\n", ind, ind, ind)
@@ -3624,7 +3686,20 @@ func c06BuildParsed(m *c06Multi, ctxs []*c06TxCtx) (*c06Pipe, error) {
 	}
 	c06Cur = pp
 	defer func() { c06Cur = nil }()
-	p, err := New(map[string]interface{}{}, nodes)
+	globals := map[string]interface{}{}
+	// top-level `checks <name> { }` blocks are module instances (what maddy.go's RegisterModules does
+	// with them): registered, initialised by the first reference (module.GetInstance)
+	var rest []config.Node
+	for _, n := range nodes {
+		if n.Name == "checks" && len(n.Args) == 1 {
+			module.RegisterInstance(&CheckGroup{instName: n.Args[0]}, config.NewMap(globals, n))
+			delete(module.Initialized, n.Args[0])
+			continue
+		}
+		rest = append(rest, n)
+	}
+	nodes = rest
+	p, err := New(globals, nodes)
 	if err != nil {
 		return nil, err
 	}
@@ -4525,7 +4600,9 @@ func c06GenMulti(r *vh.Rng, big bool) *c06Multi {
 			}
 		}
 	}
-	if m.dirs == nil && r.Chance(45) {
+	if r.Chance(22) {
+		c06GenGroup(r, m, nC)
+	} else if m.dirs == nil && r.Chance(45) {
 		prefix = c06GenSlReuse(r, m)
 	}
 	m.fill()
@@ -4549,6 +4626,137 @@ func c06GenMulti(r *vh.Rng, big bool) *c06Multi {
 		m.sched = append(append([]int(nil), prefix...), rest...)
 	}
 	return m
+}
+
+// c06GenGroup (round 11): a named check group (top-level `checks verif_c06_grp { }`, 1-5 members;
+// 3 and 5 favoured - CheckGroup.Init's repeated append leaves such a list with spare capacity)
+// that 2-4 scopes of the pipeline (global / source blocks / destination blocks) reference with
+// `check &verif_c06_grp` as their FIRST check directive, each followed by 1-2 `check { }` directives
+// with checks of its own (different ones per scope where the pipeline has enough checks); the
+// transactions that pass such a scope mostly get a verdict of the scope's OWN extra check (body
+// reject / quarantine, a recipient of the block, sender, connection).
+func c06GenGroup(r *vh.Rng, m *c06Multi, nC int) {
+	k := []int{3, 3, 3, 3, 5, 5, 1, 2, 4}[r.Intn(9)]
+	if k > nC-2 {
+		k = nC - 2
+	}
+	for len(m.grp) < k {
+		if x := r.Intn(nC); !c06Has(m.grp, x) {
+			m.grp = append(m.grp, x)
+		}
+	}
+	// the scopes: -1 global, (s, -1) source block s, (s, b) destination block b of source s
+	type scope struct{ s, b int }
+	var all, onPath []scope
+	all = append(all, scope{-1, -1})
+	for s, sb := range m.srcs {
+		all = append(all, scope{s, -1})
+		for b, bl := range sb.blocks {
+			if !bl.flaky {
+				all = append(all, scope{s, b})
+			}
+		}
+	}
+	for _, c := range m.txs {
+		onPath = append(onPath, scope{c.src, -1})
+		for _, rc := range c.rcpts {
+			if !m.srcs[c.src].blocks[rc.blk].flaky {
+				onPath = append(onPath, scope{c.src, rc.blk})
+			}
+		}
+	}
+	has := func(l []scope, x scope) bool {
+		for _, y := range l {
+			if x == y {
+				return true
+			}
+		}
+		return false
+	}
+	var chosen []scope
+	n := 2 + r.Intn(3)
+	for tries := 0; len(chosen) < n && tries < 40; tries++ {
+		x := all[r.Intn(len(all))]
+		if len(chosen) < 2 && r.Chance(75) {
+			x = onPath[r.Intn(len(onPath))]
+		}
+		if !has(chosen, x) {
+			chosen = append(chosen, x)
+		}
+	}
+	var taken []int // the extra checks handed out so far
+	extras := map[scope][]int{}
+	for _, sc := range chosen {
+		var avoid []int
+		if sc.s >= 0 {
+			avoid = append(avoid, m.global...)
+			if sc.b >= 0 {
+				avoid = append(avoid, m.srcs[sc.s].checks...)
+			}
+		}
+		var ex []int
+		ne := 1
+		if r.Chance(30) {
+			ne = 2
+		}
+		for tries := 0; len(ex) < ne && tries < 60; tries++ {
+			x := r.Intn(nC)
+			if c06Has(m.grp, x) || c06Has(ex, x) || (tries < 40 && (c06Has(avoid, x) || c06Has(taken, x))) {
+				continue
+			}
+			ex = append(ex, x)
+		}
+		taken = append(taken, ex...)
+		extras[sc] = ex
+		l := append(append([]int(nil), m.grp...), ex...)
+		switch {
+		case sc.s < 0:
+			m.global = l
+		case sc.b < 0:
+			m.srcs[sc.s].checks = l
+		default:
+			m.srcs[sc.s].blocks[sc.b].checks = l
+		}
+	}
+	for _, c := range m.txs {
+		if !r.Chance(70) {
+			continue
+		}
+		var mine []scope
+		for _, sc := range chosen {
+			if sc.s < 0 || (sc.s == c.src && sc.b < 0) {
+				mine = append(mine, sc)
+			}
+			for _, rc := range c.rcpts {
+				if sc.s == c.src && sc.b == rc.blk && !has(mine, sc) {
+					mine = append(mine, sc)
+				}
+			}
+		}
+		if len(mine) == 0 {
+			continue
+		}
+		sc := mine[r.Intn(len(mine))]
+		if len(extras[sc]) == 0 {
+			continue
+		}
+		x := extras[sc][r.Intn(len(extras[sc]))]
+		v := c06V{'1', r.Pick("r", "q", "q")[0]}
+		switch y := r.Intn(10); {
+		case y < 6:
+			c.scripts[x].body = v
+		case y < 8 && sc.b >= 0:
+			for _, rc := range c.rcpts {
+				if rc.blk == sc.b {
+					c.scripts[x].rcpt[rc.id] = v
+				}
+			}
+		case y < 9:
+			c.scripts[x].sender = v
+		default:
+			c.scripts[x].conn = v
+		}
+	}
 }
 
 // c06GenSlReuse (round 10): the situation in which a state object of a check is closed while its
